@@ -4327,11 +4327,11 @@ EmitModSib_LabelRip_X86:
           }
 
           label = &_code->label_entry_of(base_label_id);
-          rel_offset -= (4 + imm_size);
+          rel_offset = int32_t(uint32_t(rel_offset) - (4u + imm_size));
 
           if (label->is_bound_to(_section)) {
             // Label bound to the current section.
-            rel_offset += int32_t(label->offset() - writer.offset_from(_buffer_data));
+            rel_offset = int32_t(uint32_t(rel_offset) + uint32_t(label->offset() - writer.offset_from(_buffer_data)));
             writer.emit32u_le(uint32_t(rel_offset));
           }
           else {
